@@ -20,6 +20,7 @@ def declare(c):
            floor=1)
     c.rule('C01.R4', 'the region test consults every defined region', floor=1)
     c.rule('C01.R5', 'an episode is opened only when some point tested inside a region', floor=20)
+    c.rule('C01.R7', 'forwarded output is built per command: configured script lists are copied, never extended or returned', floor=200)
     c.rule('C01.R6', 'tracked X/Y/Z follow the last point of every move whatever the region tests said', floor=200)
 
 
@@ -88,7 +89,9 @@ def path_rules(col, gcode, paths, I):
         detail = {'entry': p.entry, 'result': f.describe(), 'decisions': f.decisions()}
         # ---- R1
         col.instance('C01.R1', sig)
-        if has_cmd:
+        if has_cmd and gcode in ('G10',) and f.pre_excluding is not True:
+            pass        # a firmware retraction outside an episode is forwarded as it is
+        elif has_cmd:
             if f.pre_excluding is not False:
                 col.report('C01.R1', 'GcodeHandlers.handleGcode', '%s forwards cmd, excluding=%s' % (gcode, f.pre_excluding),
                            'the incoming command is forwarded on a path that is (or may be) inside an episode',
@@ -111,7 +114,7 @@ def path_rules(col, gcode, paths, I):
         # ---- R2
         entering = f.pre_excluding is False and post is True
         inside = f.pre_excluding is True and post is True
-        if (entering or inside) and called_plm:
+        if (entering or inside) and (called_plm or gcode in ('G10', 'G11')):
             col.instance('C01.R2', sig)
             if f.kind == 'list':
                 why = quiet_violation(I, p.st, f.elems, allow_enter=entering)
@@ -121,6 +124,17 @@ def path_rules(col, gcode, paths, I):
             elif f.kind != 'ignore':
                 col.report('C01.R2', 'GcodeHandlers.handleGcode', '%s in episode -> %s' % (gcode, f.describe()),
                            'inside an episode a move must be suppressed', detail=detail)
+        # ---- R7: what is forwarded is built on this path; the configured script lists are only copied
+        col.instance('C01.R7', sig)
+        for e in p.st.trace:
+            if e[0].startswith('seq-') and e[1] in (S_OID + '.enteringExcludedRegionGcode', S_OID + '.exitingExcludedRegionGcode'):
+                col.report('C01.R7', e[-1] if isinstance(e[-1], str) else 'GcodeHandlers.handleGcode',
+                           'configured script list mutated (%s)' % e[0],
+                           'commands generated for one episode are appended to a configured script: every later episode replays '
+                           'them, including re-positioning moves to places that may be excluded by then', detail=detail)
+        if isinstance(p.ret, Obj) and p.ret.oid in (S_OID + '.enteringExcludedRegionGcode', S_OID + '.exitingExcludedRegionGcode'):
+            col.report('C01.R7', 'GcodeHandlers.handleGcode', 'configured script list handed out',
+                       'the configured script list itself is returned to OctoPrint / the caller', detail=detail)
         # ---- R5
         if ('ExcludeRegionState', 'enterExcludedRegion') in f.calls or (f.pre_excluding is not True and post is True):
             col.instance('C01.R5', sig)
@@ -225,7 +239,7 @@ def coverage_rules(ctx, tier):
 
 def run(ctx, tier):
     declare(ctx)
-    run_path_rules(ctx, __name__, 'path_rules', list(MOTION), unroll=2 if tier == 'thorough' else 1,
+    run_path_rules(ctx, __name__, 'path_rules', list(MOTION) + ['G10', 'G11'], unroll=2 if tier == 'thorough' else 1,
                    debug_logging=(tier == 'thorough'))
     coverage_rules(ctx, tier)
     ctx.assume('region geometry and unit conversion are decided by C17 / C08; here the outcome of containsPoint is a '
